@@ -6,14 +6,20 @@ A case is [shape, classes, history, strict]:
             1: diamond of four classes (0 derives from 1 and 2, both derive from 3)
   classes = [[ifaces, dprops], ...] in MRO order, most derived first
             iface = [name, [[pname, sig, readable, writeable, emits], ...]]      emits 0 False / 1 True / 2 'invalidates'
-            dprop = [attr, pname, None | iface name]
-  history = [[0, attr, val] | [1] | [2, i, n] | [3, i, n, val] | [4, i], ...]   assign / export / Get / Set / GetAll
+            dprop = [attr, pname, None | iface name, when]   when (optional, default 0): 0 the descriptor is in the
+                    class namespace given to type(); 1 attached with setattr after type(), before the first instance;
+                    2 attached after the instance was created, before any property was used; 3 attached after the
+                    first completed local assignment (the per-class caches exist): never resolved by txdbus, not passed to the model,
+                    no operation uses it
+  history = [[0, attr, val] | [1, c] | [2, i, n, c] | [3, i, n, val, c] | [4, i, c] | [5, c], ...]
+            assign / export on connection c / Get / Set / GetAll arriving on connection c / unexport from c
+            (c in {1, 2}; omitted = 1)
             val in the coding of Model/PyVal.v: [0, int] [1, bool] [2, double bits] [3, utf8 bytes] [5, list]
             [6, tuple] [7, [[k, v], ...]] [9, type code, val] (marshal.Byte ... ObjectPath instance) [10] None
   strict  = 1: every assigned / Set value conforms to the declared type of its property (the typed
             clauses of the property are checked); 0: the malformed-value stream.
-The classes are built with type() against the tree under test; the object is exported on a real
-DBusObjectHandler whose connection records the bytes of every message; remote calls are raw call bytes read
+The classes are built with type() against the tree under test; the object is exported on real
+DBusObjectHandlers (two connections) each of whose connection records the bytes of every message; remote calls are raw call bytes read
 by message.parseMessage; replies and signals are decoded from their bytes by harness/c17_wire.py."""
 import struct
 
@@ -41,6 +47,16 @@ ASSUMPTIONS = [
     'assigned to integer-typed properties, bytearrays) are not generated',
     'the variant type inside PropertiesChanged is not constrained by the statement and not checked by the oracle '
     '(it is compared with the model)',
+    'connections: the statement asks for one PropertiesChanged and names no connection. Oracle (Spec changed_demanded): '
+    'while the object is exported on the connection of its most recent export the one signal must be sent there '
+    '(exported on two connections at once it announces on the later one only - the code\'s choice, taken as given); '
+    'while it is exported only on another connection (export 1, export 2, unexport 2) count and content are demanded but '
+    'not the connection (the code announces on 2, where the object no longer is: observation); once exported nowhere, '
+    'silence or the announcement are both accepted (the code keeps announcing: unexportObject does not detach)',
+    'a DBusProperty attached to its class after the per-class caches were built (when = 3) is never resolved by txdbus '
+    '(assigning it raises AttributeError, remote access answers Invalid Property); such descriptors are attached in some '
+    'cases to check that the declared properties are unaffected, but no operation uses them and the model does not see '
+    'them; descriptors attached before the caches exist (when = 1, 2) must behave exactly like class-body ones',
 ]
 
 PROPS_IFACE = 'org.freedesktop.DBus.Properties'
@@ -225,7 +241,12 @@ def gen_nonconforming(rng, sig, remote):
 
 # ---------------------------------------------------------------------------------------------
 # building the object
+def dp_when(d):
+    return int(d[3]) if len(d) > 3 else 0
+
+
 def build(case, E):
+    """-> (object, descriptors to attach after the first operation)"""
     shape, classes = case[0], case[1]
     objects, interface = E['objects'], E['interface']
     emap = {0: False, 1: True, 2: 'invalidates'}
@@ -240,25 +261,38 @@ def build(case, E):
                                                                          emitsOnChange=emap[e])
                                                     for pn, sg, r, w, e in props], noRegister=True)
                 for iname, props in ifaces]
-        for attr, pname, iname in dprops:
-            ns[s(attr)] = objects.DBusProperty(s(pname), s(iname) if iname is not None else None)
+        for d in dprops:
+            if dp_when(d) == 0:
+                ns[s(d[0])] = objects.DBusProperty(s(d[1]), s(d[2]) if d[2] is not None else None)
         if shape == 1 and n == 4:
             bases = {0: (built[1], built[2]), 1: (built[3],), 2: (built[3],), 3: (objects.DBusObject,)}[k]
         else:
             bases = (built[k + 1],) if k + 1 < n else (objects.DBusObject,)
         built[k] = type('C17_%d' % k, bases, ns)
+
+    def attach(when):
+        for k in range(n):
+            for d in classes[k][1]:
+                if dp_when(d) == when:
+                    setattr(built[k], s(d[0]), objects.DBusProperty(s(d[1]), s(d[2]) if d[2] is not None else None))
+
+    attach(1)
     cls = built[0]
     mro = [c for c in cls.__mro__ if c not in (objects.DBusObject, object)]
     if mro != built:
         raise RuntimeError('MRO differs from the case order')
-    return cls(PATH)
+    obj = cls(PATH)
+    attach(2)
+    return obj, (lambda: attach(3))
 
 
 def model_hier(case):
     out = []
     for ifaces, dprops in case[1]:
         out.append([[[s(iname), [[s(pn), s(sg), int(r), int(w), int(e)] for pn, sg, r, w, e in props]] for iname, props in ifaces],
-                    [[s(a), s(p), (None if i is None else [s(i)])] for a, p, i in dprops]])
+                    # class __dict__ order: namespace descriptors first, then those attached by setattr
+                    [[s(d[0]), s(d[1]), (None if d[2] is None else [s(d[2])])]
+                     for d in sorted((d for d in dprops if dp_when(d) < 3), key=dp_when)]])
     return out
 
 
@@ -276,30 +310,36 @@ def obs_dict(d):
     return sorted([bytes(k[1])] + obs_variant(v) for k, v in d[1])
 
 
-def classify(raws, serial, E):
-    """messages sent during one operation -> (replies, signals)"""
+def classify(raws, serial, E, c):
+    """messages sent on connection c during one operation -> (replies, signals)"""
     replies, signals = [], []
     for raw in raws:
         m = E['message'].parseMessage(raw, [])
         t = type(m).__name__
         if t == 'SignalMessage':
             if m.path != PATH or getattr(m, 'destination', None) is not None:
-                signals.append(['other-signal', m.path])
+                signals.append(['other-signal', c, m.path])
             elif m.interface == PROPS_IFACE and m.member == 'PropertiesChanged' and m.signature == 'sa{sv}as':
                 iname, changed, inval = wire.decode_body(raw, 'sa{sv}as')
                 ents = obs_dict(changed)
                 if len(ents) != 1 or inval != [5, []]:
-                    signals.append(['changed-shape', len(ents), norm(inval)])
+                    signals.append(['changed-shape', c, len(ents), norm(inval)])
                 else:
-                    signals.append([0, bytes(iname[1]), ents[0][0], ents[0][1], ents[0][2]])
+                    signals.append([0, c, bytes(iname[1]), ents[0][0], ents[0][1], ents[0][2]])
             elif m.interface == OM_IFACE and m.member == 'InterfacesAdded' and m.signature == 'sa{sa{sv}}':
                 p, d = wire.decode_body(raw, 'sa{sa{sv}}')
                 if bytes(p[1]) != PATH.encode():
-                    signals.append(['added-path', bytes(p[1])])
+                    signals.append(['added-path', c, bytes(p[1])])
                 else:
-                    signals.append([1, sorted([bytes(k[1]), obs_dict(v)] for k, v in d[1])])
+                    signals.append([1, c, sorted([bytes(k[1]), obs_dict(v)] for k, v in d[1])])
+            elif m.interface == OM_IFACE and m.member == 'InterfacesRemoved' and m.signature == 'sas':
+                p, names = wire.decode_body(raw, 'sas')
+                if bytes(p[1]) != PATH.encode():
+                    signals.append(['removed-path', c, bytes(p[1])])
+                else:
+                    signals.append([2, c, sorted(bytes(x[1]) for x in names[1])])
             else:
-                signals.append(['other-signal', m.interface, m.member])
+                signals.append(['other-signal', c, m.interface, m.member])
         elif t in ('MethodReturnMessage', 'ErrorMessage'):
             if serial is None or m.reply_serial != serial or m.destination != SENDER:
                 replies.append(['stray-reply'])
@@ -318,16 +358,32 @@ def classify(raws, serial, E):
     return replies, signals
 
 
+def norm_op(op):
+    """history entry with the connection made explicit (older cases have none: connection 1)"""
+    op = list(op)
+    k = op[0]
+    want = {0: 3, 1: 2, 2: 4, 3: 5, 4: 3, 5: 2}[k]
+    if len(op) < want:
+        op.append(1)
+    return op
+
+
+def op_conn(op):
+    return int(op[-1]) if op[0] != 0 else 0
+
+
 def run_impl(case, E):
     """-> (observations per operation, history as the model must see it)"""
-    obj = build(case, E)
-    conn = E['Conn']()
-    handler = E['objects'].DBusObjectHandler(conn)
+    obj, attach_late = build(case, E)
+    conns = {1: E['Conn'](), 2: E['Conn']()}
+    handlers = {c: E['objects'].DBusObjectHandler(conns[c]) for c in conns}
     message = E['message']
     out, mhist = [], []
-    for op in case[2]:
+    late_done = False
+    for idx, op in enumerate(case[2]):
         k = op[0]
-        n0 = len(conn.sent)
+        c = op_conn(op)
+        n0 = {x: len(conns[x].sent) for x in conns}
         serial = None
         raised = False
         mop = None
@@ -338,9 +394,15 @@ def run_impl(case, E):
             except Exception:
                 raised = True
         elif k == 1:
-            mop = [1]
+            mop = [1, c]
             try:
-                handler.exportObject(obj)
+                handlers[c].exportObject(obj)
+            except Exception:
+                raised = True
+        elif k == 5:
+            mop = [5, c]
+            try:
+                handlers[c].unexportObject(PATH)
             except Exception:
                 raised = True
         else:
@@ -355,18 +417,21 @@ def run_impl(case, E):
             msg.sender = SENDER
             serial = msg.serial
             if k == 2:
-                mop = [2, msg.body[0], msg.body[1]]
+                mop = [2, c, msg.body[0], msg.body[1]]
             elif k == 3:
-                mop = [3, msg.body[0], msg.body[1], pv_of(msg.body[2])]
+                mop = [3, c, msg.body[0], msg.body[1], pv_of(msg.body[2])]
             else:
-                mop = [4, msg.body[0]]
+                mop = [4, c, msg.body[0]]
             try:
-                handler.handleMethodCallMessage(msg)
-            except Exception as e:
+                handlers[c].handleMethodCallMessage(msg)
+            except Exception:
                 raised = True
-        raws = conn.sent[n0:]
-        replies, signals = classify(raws, serial, E)
-        if k in (0, 1):
+        replies, signals = [], []
+        for x in sorted(conns):
+            r, sg = classify(conns[x].sent[n0[x]:], serial if x == c else None, E, x)
+            replies += r
+            signals += sg
+        if k in (0, 1, 5):
             rp = [1] if raised else [0]
             if replies:
                 rp = ['unexpected-reply'] + replies
@@ -379,6 +444,10 @@ def run_impl(case, E):
                 rp = replies[0]
         out.append([rp, signals])
         mhist.append(mop)
+        if k == 0 and not raised and not late_done:
+            # a completed assignment has built the caches of every class (DBusProperty.__set__ walks them all)
+            attach_late()
+            late_done = True
     return out, mhist
 
 
@@ -403,8 +472,10 @@ def m_reply(o):
 
 def m_signal(o):
     if o[0] == 0:
-        return [0, bytes(o[1]), bytes(o[2])] + m_var(o[3], o[4])
-    return [1, sorted([bytes(e[0]), m_dict(e[1])] for e in o[1])]
+        return [0, o[1], bytes(o[2]), bytes(o[3])] + m_var(o[4], o[5])
+    if o[0] == 2:
+        return [2, o[1], sorted(bytes(x) for x in o[2])]
+    return [1, o[1], sorted([bytes(e[0]), m_dict(e[1])] for e in o[2])]
 
 
 def m_out(o):
@@ -440,9 +511,10 @@ def iface_known(case, iname):
 
 
 def oracle(case, idx, op, impl, spec, res, track):
-    """spec = [exported, clear, reply, changed, write, entries]"""
-    exported, clear, rp, changed, write, entries = spec
+    """spec = [exported (on the connection of the call), clear, reply, changed, write, entries, [on 1, on 2], handler]"""
+    exported, clear, rp, changed, write, entries, on, handler = spec
     irp, isigs = impl
+    val = op[2] if op[0] == 0 else (op[3] if op[0] == 3 else None)
     if track.get('dirty'):
         return          # a Set through '' reached a property the specification does not single out
     if op[0] == 3 and not clear:
@@ -452,18 +524,29 @@ def oracle(case, idx, op, impl, spec, res, track):
     where = 'step %d %r' % (idx, op[:3])
     k = op[0]
     pc = [x for x in isigs if x and x[0] == 0]
-    others = [x for x in isigs if not (x and x[0] in (0, 1))]
+    others = [x for x in isigs if not (x and x[0] in (0, 1, 2))]
     if others:
         res.violate(case, '%s: unexpected message %r' % (where, others), 'signal:malformed')
-    want_sigs = [[0, bytes(c[1]), bytes(c[2]), norm(c[4])] for c in changed]       # value compared, variant type not
-    got_sigs = [[0, x[1], x[2], x[4]] for x in pc]
+    # [connection, interface, name, value]: the value is compared, the variant type is not
+    want_sigs = [[c[1], bytes(c[2]), bytes(c[3]), norm(c[5])] for c in changed]
+    got_sigs = [[x[1], x[2], x[3], x[5]] for x in pc]
+    latest = handler[0] if handler else None            # connection of the most recent export
+    if latest is None:
+        placed, sig_ok = 'never exported', got_sigs == []
+    elif on[latest - 1]:
+        placed, sig_ok = 'exported on its latest connection %d' % latest, got_sigs == want_sigs
+    elif any(on):
+        placed = 'exported, but no longer on its latest connection %d' % latest
+        sig_ok = [x[1:] for x in got_sigs] == [x[1:] for x in want_sigs]
+    else:
+        placed, sig_ok = 'exported nowhere any more', got_sigs in ([], want_sigs)
     if k == 0 or k == 3:
         presentable = bool(write) and bool(write[2])
         if write:
             key = (s(write[0]), s(write[1]))
             sig = declared_sig(case, key[0], key[1])
-            cf = conforms(sig, op[-1]) if sig in BASIC else None
-            track[key] = (cf, op[-1], sig)
+            cf = conforms(sig, val) if sig in BASIC else None
+            track[key] = (cf, val, sig)
         if not write:
             if k == 3:
                 if irp != [5]:
@@ -477,18 +560,21 @@ def oracle(case, idx, op, impl, spec, res, track):
             if k == 3 and irp != [4]:
                 res.violate(case, '%s: Set of a presentable value on a writable property answered %r' % (where, irp),
                             'set:refused-on-writable-property')
-            if got_sigs != want_sigs:
+            if not sig_ok:
                 if len(got_sigs) < len(want_sigs):
                     sg = 'signal:missing'
                 elif len(got_sigs) > len(want_sigs):
                     sg = 'signal:unexpected' if not want_sigs else 'signal:duplicated'
+                elif [x[1:] for x in got_sigs] == [x[1:] for x in want_sigs]:
+                    sg = 'signal:wrong-connection'
                 else:
                     sg = 'signal:content'
-                res.violate(case, '%s: PropertiesChanged expected %r, got %r' % (where, want_sigs, got_sigs), sg)
+                res.violate(case, '%s: object %s: PropertiesChanged [connection, interface, name, value] expected %r, got %r'
+                            % (where, placed, want_sigs, got_sigs), sg)
         if k == 3 and write and irp == [4]:
             sig = declared_sig(case, s(write[0]), s(write[1]))
-            if sig in BASIC and conforms(sig, op[-1]) is False:
-                res.violate(case, '%s: Set accepted a value %r that is not of the declared type %s' % (where, op[-1], sig),
+            if sig in BASIC and conforms(sig, val) is False:
+                res.violate(case, '%s: Set accepted a value %r that is not of the declared type %s' % (where, val, sig),
                             'set:accepts-value-of-wrong-type')
     elif k == 2:
         if clear:
@@ -539,7 +625,7 @@ def oracle(case, idx, op, impl, spec, res, track):
 
 def evaluate(ctx, cases, res):
     E = env()
-    cases = [[int(c[0]), c[1], c[2], int(c[3])] for c in cases]
+    cases = [[int(c[0]), c[1], [norm_op(o) for o in c[2]], int(c[3])] for c in cases]
     impl_all = []
     lines = []
     for c in cases:
@@ -561,6 +647,11 @@ def evaluate(ctx, cases, res):
         res.traces += 1
         res.count(case, nontrivial=any(o[0] in (2, 3, 4) for o in case[2]))
         stats['wf_cases' if wf else 'non_wf_cases'] += 1
+        stats['unexports'] = stats.get('unexports', 0) + sum(1 for o in case[2] if o[0] == 5)
+        stats['ops_on_connection_2'] = stats.get('ops_on_connection_2', 0) + sum(1 for o in case[2] if op_conn(o) == 2)
+        for w in (1, 2, 3):
+            kk = 'descriptors_attached_when_%d' % w
+            stats[kk] = stats.get(kk, 0) + sum(1 for c in case[1] for d in c[1] if dp_when(d) == w)
         track = {}
         for idx, (op, im, st) in enumerate(zip(case[2], io, steps)):
             nops += 1
@@ -639,6 +730,13 @@ def gen_hier(rng, wf=True):
                 y[0] = x[0]
     for c in classes:
         rng.shuffle(c[1])
+        for d in c[1]:
+            # how the descriptor reaches its class: class body / setattr before the first instance / after it
+            d.append(rng.choice([0, 0, 0, 0, 0, 0, 1, 1, 2]))
+    if rng.random() < 0.08:
+        # a descriptor attached once the caches exist: txdbus never resolves it; nothing uses it
+        iname, props = rng.choice(idefs)
+        classes[rng.randrange(n)][1].append(['late0', props[0][0], iname, 3])
     return shape, classes
 
 
@@ -647,7 +745,10 @@ def bound(classes):
     order = [i for c in classes for i in c[0]]
     out = []
     for c in classes:
-        for attr, pname, iname in c[1]:
+        for d in c[1]:
+            attr, pname, iname = d[0], d[1], d[2]
+            if dp_when(d) == 3:
+                continue
             for i in order:
                 if (iname is None or i[0] == iname):
                     p = next((q for q in i[1] if q[0] == pname), None)
@@ -679,7 +780,7 @@ def gen_history(rng, classes, strict, length):
     b = bound(classes)
     hist = []
     if not b:
-        return [[1], [4, 'org.ex.A'], [2, 'org.ex.A', 'P']]
+        return [[1, 1], [4, 'org.ex.A', 1], [2, 'org.ex.A', 'P', 1]]
     inames = sorted({i for _, i, _ in b})
     attr_sig = {}
     for attr, iname, p in b:
@@ -691,8 +792,18 @@ def gen_history(rng, classes, strict, length):
             hist.append([0, attr, gen_value(rng, [attr_sig[attr]], strict, False)])
     if rng.random() < 0.03:
         attr, iname, p = rng.choice(b)
-        hist.append([2, iname, p[0]])          # remote call before export
-    hist.append([1])
+        hist.append([2, iname, p[0], 1])          # remote call before export
+    two = rng.random() < 0.3                       # this history uses the second connection as well
+    on = set()
+
+    def conn():
+        if on and rng.random() < 0.9:
+            return rng.choice(sorted(on))
+        return rng.choice([1, 2]) if two else 1
+
+    c0 = rng.choice([1, 2]) if two else 1
+    hist.append([1, c0])
+    on.add(c0)
     for _ in range(length):
         r = rng.random()
         attr, iname, p = rng.choice(b)
@@ -701,17 +812,46 @@ def gen_history(rng, classes, strict, length):
         qn = p[0] if rng.random() < 0.9 else rng.choice(WRONG_PNAMES + PNAME_POOL)
         if r < 0.28:
             hist.append([0, attr, gen_value(rng, [attr_sig[attr]], strict, False)])
-        elif r < 0.55:
-            hist.append([2, qi, qn])
-        elif r < 0.78:
-            hist.append([3, qi, qn, gen_value(rng, targets(b, qi, qn), strict, True)])
+        elif r < 0.53:
+            hist.append([2, qi, qn, conn()])
+        elif r < 0.75:
+            c = conn()
+            hist.append([3, qi, qn, gen_value(rng, targets(b, qi, qn), strict, True), c])
             if rng.random() < 0.6:
-                hist.append([2, qi, qn])
-        elif r < 0.97:
-            hist.append([4, rng.choice(inames) if rng.random() < 0.8 else rng.choice(WRONG_IFACES)])
+                hist.append([2, qi, qn, c])
+        elif r < 0.92:
+            hist.append([4, rng.choice(inames) if rng.random() < 0.8 else rng.choice(WRONG_IFACES), conn()])
+        elif r < 0.96 or not two:
+            c = rng.choice([1, 2]) if two else 1
+            hist.append([1, c])
+            on.add(c)
         else:
-            hist.append([1])
+            c = rng.choice([1, 2])
+            hist.append([5, c])
+            on.discard(c)
     return hist
+
+
+HANDLER_CLASSES = [[[['org.ex.A', [['P', 'u', 1, 1, 1], ['Q', 's', 1, 1, 0], ['V', 'i', 1, 1, 2]]]],
+                    [['p', 'P', None, 0], ['q', 'Q', None, 1], ['v', 'V', None, 0]]]]
+
+
+def gen_handlers(depth):
+    """every order of export / unexport on two connections up to `depth` events; after each event a local
+    assignment and, on each connection, a Set and a Get of the notifying property, an assignment of a
+    non-notifying and of an invalidating one"""
+    import itertools
+    events = [[1, 1], [1, 2], [5, 1], [5, 2]]
+    z = 10
+    for n in range(1, depth + 1):
+        for seq in itertools.product(events, repeat=n):
+            hist = [[0, 'p', [0, 1]], [0, 'q', [3, b'a']], [0, 'v', [0, 1]]]
+            for ev in seq:
+                z += 1
+                hist += [list(ev), [0, 'p', [0, z]], [3, 'org.ex.A', 'P', [9, ord('u'), [0, z + 1000]], 1],
+                         [3, 'org.ex.A', 'P', [9, ord('u'), [0, z + 2000]], 2], [2, 'org.ex.A', 'P', 1],
+                         [2, 'org.ex.A', 'P', 2], [0, 'q', [3, b'b']], [0, 'v', [0, z]], [4, 'org.ex.A', 2]]
+            yield [0, HANDLER_CLASSES, hist, 1]
 
 
 def gen_matrix(rng):
@@ -753,6 +893,21 @@ def gen_fixed():
                     [['p2', 'P', explicit]]]],
                [[0, 'p2', [3, b'two']], [0, 'p1', [3, b'one']], [0, 'p2', [3, b'again']], [1], [2, 'org.ex.B', 'P'],
                 [2, 'org.ex.A', 'P'], [2, '', 'P'], [4, 'org.ex.B']], 1]
+    # properties generated from the interface description: descriptors attached with setattr after type()
+    for when in (1, 2):
+        yield [0, [[[['org.ex.T', [['Target', 'q', 1, 1, 1], ['Current', 'n', 1, 0, 0], ['Mode', 's', 1, 1, 1], ['Pin', 'u', 0, 1, 0]]]],
+                    [['mode', 'Mode', None, 0], ['target', 'Target', 'org.ex.T', when], ['current', 'Current', 'org.ex.T', when],
+                     ['pin', 'Pin', 'org.ex.T', when]]]],
+               [[0, 'mode', [3, b'auto']], [0, 'target', [0, 21]], [0, 'current', [0, -3]], [0, 'pin', [0, 1234]], [1, 1],
+                [2, 'org.ex.T', 'Target', 1], [2, 'org.ex.T', 'Current', 1], [2, 'org.ex.T', 'Pin', 1], [4, 'org.ex.T', 1],
+                [3, 'org.ex.T', 'Target', [9, ord('q'), [0, 19]], 1], [2, 'org.ex.T', 'Target', 1], [0, 'target', [0, 23]],
+                [3, 'org.ex.T', 'Pin', [9, ord('u'), [0, 1]], 1], [4, 'org.ex.T', 1]], 1]
+    # an object moved from connection 1 to connection 2, in both orders; unexported from its only connection
+    for seq in ([[1, 2], [5, 1]], [[5, 1], [1, 2]], [[5, 1]], [[1, 2], [5, 2]]):
+        yield [0, HANDLER_CLASSES,
+               [[0, 'p', [0, 1]], [0, 'q', [3, b'a']], [0, 'v', [0, 1]], [1, 1], [0, 'p', [0, 2]]] + seq +
+               [[0, 'p', [0, 3]], [3, 'org.ex.A', 'P', [9, ord('u'), [0, 4]], 2], [3, 'org.ex.A', 'P', [9, ord('u'), [0, 5]], 1],
+                [2, 'org.ex.A', 'P', 2], [2, 'org.ex.A', 'P', 1], [4, 'org.ex.A', 2], [0, 'q', [3, b'b']], [5, 1], [5, 2]], 1]
     # wrong-typed Set, unassigned integer property
     yield [0, [[[['org.ex.A', [['B', 'u', 1, 1, 0], ['S', 's', 1, 1, 1]]]], [['b', 'B', None], ['s', 'S', None]]]],
            [[1], [2, 'org.ex.A', 'B'], [4, 'org.ex.A'], [0, 'b', [0, 1]], [0, 's', [3, b'x']], [1], [3, 'org.ex.A', 'B', [3, b'abc']],
@@ -777,10 +932,15 @@ def run(ctx, res):
                 'any class, same property name on several interfaces, DBusProperty attributes on any class with and without '
                 'an explicit interface, 7%% with a repeated interface name or shadowed attribute) with histories of local '
                 'assignment before and after export, Get / Set / GetAll with right, empty and wrong names, 20%% of them with '
-                'values of the wrong type. Every operation is one evaluation; a case is non-trivial if it makes a remote '
-                'call; distinct by hash' % n)
+                'values of the wrong type; a third of the descriptors are attached with setattr after type() (before or after the '
+                'first instance), 30%% of the histories export / unexport on two connections; (d) every order of export / '
+                'unexport on two connections up to %d events (%d cases), each event followed by a local assignment, a Set and a '
+                'Get on each connection, assignments of a silent and an invalidating property and a GetAll, plus the fixed '
+                'move-between-connections and generated-descriptor shapes. Every operation is one evaluation; a case is '
+                'non-trivial if it makes a remote call; distinct by hash' % (n, ctx.n(3, 4), sum(4 ** k for k in range(1, ctx.n(3, 4) + 1))))
     evaluate(ctx, list(gen_matrix(ctx.rng)), res)
     evaluate(ctx, list(gen_fixed()), res)
+    evaluate(ctx, list(gen_handlers(ctx.n(3, 4))), res)
     chunk = 2000
     left = n
     while left > 0:
